@@ -144,6 +144,7 @@ func ParseElem(raw []byte, scope map[string]string) (*Elem, error) {
 	d.Strict = true
 	ctx := nsCtx{scope}
 	var stack []*Elem
+	var declares []bool // per open element: did it push a map of declarations?
 	var root *Elem
 	for {
 		tok, err := d.RawToken()
@@ -163,7 +164,12 @@ func ParseElem(raw []byte, scope map[string]string) (*Elem, error) {
 					binds[a.Name.Local] = a.Value
 				}
 			}
-			ctx = append(ctx, binds)
+			// (an element without declarations shares the map of its parent: lookups stay O(number of
+			// declaring ancestors), not O(depth) - 250 000 levels of nesting are a legal input)
+			if len(binds) > 0 {
+				ctx = append(ctx, binds)
+			}
+			declares = append(declares, len(binds) > 0)
 			sp, ok := ctx.lookup(t.Name.Space)
 			if !ok {
 				return nil, fmt.Errorf("unbound prefix %q", t.Name.Space)
@@ -197,7 +203,10 @@ func ParseElem(raw []byte, scope map[string]string) (*Elem, error) {
 				return nil, errors.New("unbalanced end tag")
 			}
 			stack = stack[:len(stack)-1]
-			ctx = ctx[:len(ctx)-1]
+			if declares[len(declares)-1] {
+				ctx = ctx[:len(ctx)-1]
+			}
+			declares = declares[:len(declares)-1]
 		case xml.CharData:
 			if len(stack) > 0 {
 				stack[len(stack)-1].Text += string(t)
